@@ -283,6 +283,9 @@ def oracle(case: Case, out: str):
     if not case.claimed or rs.values_too_large(out):
         return None
     c: rs.SysCase = pickle.loads(bytes.fromhex(case.payload))
+    if "#ALIAS:" in out:
+        return ("returned-array-rewritten", "an array handed out by an earlier request (#" + out.split("#ALIAS:")[1].split(";")[0].split("|")[0].split("#")[0]
+                + ") changed its values when the store was written to later: earlier results / trace values are rewritten retroactively")
     if "#DTYPE:" in out:
         return ("result-type", out.split("#DTYPE:")[1])
     got = out.split("|")[0].split(";")
